@@ -20,6 +20,11 @@ var c08Binds = []struct{ key, action string }{
 	{"alt-c", "clear-query"},
 	{"alt-q", "change-query(ab)"},
 	{"alt-w", "change-query(c)+reload(GEN 2)"},
+	{"alt-n", "change-nth(2|1|)"},
+	{"alt-p", "toggle-search"},
+	{"alt-o", "search(ab)"},
+	{"alt-m", "exclude-multi"},
+	{"alt-e", "toggle"},
 }
 
 func genDelay(r *zsim.Rng) int {
@@ -71,6 +76,9 @@ func genC08Plan(r *zsim.Rng) *sysPlan {
 		p.GenProc = append(p.GenProc, ps)
 	}
 	p.NumCPU = r.Intn(5)
+	if r.Chance(1, 3) {
+		p.Multi = -1
+	}
 	if r.Chance(1, 6) {
 		p.Header = r.Range(1, 3)
 	}
@@ -92,6 +100,10 @@ func genC08Plan(r *zsim.Rng) *sysPlan {
 			ev.Keys = []string{"ctrl-u", "ctrl-w"}[r.Intn(2)]
 		case k < 19:
 			ev.Keys = c08Binds[r.Intn(len(c08Binds))].key
+			if ev.Keys == "alt-p" {
+				// the query that gets frozen is only well defined once the coordinator has seen the latest one
+				p.Events = append(p.Events, sysEvent{Kind: "settle"})
+			}
 		default:
 			ev.Kind = "settle"
 		}
@@ -217,12 +229,30 @@ func c08Settle(r *sysRun, busy bool, final bool) {
 	mc := plan.Match
 	mc.Sort = sortNow
 	mc.forcePos = true
-	want := indicesOf(freshFilter(items, st.Query, mc))
+	mc.nth = r.t.nthCurrent
+	// effective query: the search(...) override while one is active; the frozen query while search is disabled
+	effQuery := st.Query
+	if r.t.inputOverride != nil {
+		effQuery = string(*r.t.inputOverride)
+		c.count("probe.search_override_active", 1)
+	} else if st.Paused {
+		fq, known := c08FrozenQuery(r, final)
+		if !known {
+			c.count("settle.paused_unknown", 1)
+			return
+		}
+		effQuery = fq
+		c.count("probe.search_disabled", 1)
+	}
+	if len(mc.nth) > 0 {
+		c.count("probe.nth_changed", 1)
+	}
+	want := indicesOf(freshFilter(items, effQuery, mc))
 	c.count("settle.checked", 1)
 	if len(want) > 0 {
 		c.count("nontrivial", 1)
 	}
-	cfg := fmt.Sprintf("query %q sort=%v loaded=%d excluded=%d tail=%d header=%d", st.Query, sortNow, len(L), len(deny), plan.Tail, plan.Header)
+	cfg := fmt.Sprintf("effective query %q shown query %q nth=%v paused=%v", effQuery, st.Query, mc.nth, st.Paused) + fmt.Sprintf(" sort=%v loaded=%d excluded=%d tail=%d header=%d", sortNow, len(L), len(deny), plan.Tail, plan.Header)
 	if d := firstDiff(st.Matches, want); d >= 0 {
 		class := "c08.order"
 		if firstDiff(sortedCopy(st.Matches), sortedCopy(want)) >= 0 {
@@ -275,4 +305,88 @@ func commonExitChecks(r *sysRun) {
 
 func init() {
 	scenarios["c08"] = scenario{bubble: true, run: runC08}
+}
+
+// c08FrozenQuery: the query in effect while search is disabled = the query line at the moment it was
+// disabled, provided the session had settled right before (otherwise which query the coordinator had
+// seen last is timing-dependent and nothing is compared).
+func c08FrozenQuery(r *sysRun, final bool) (string, bool) {
+	m := &uiModel{}
+	binds := boundActions(r.plan.baseArgs())
+	paused := false
+	frozen := ""
+	known := true
+	var override *string
+	sawReload := false
+	firstIsSettle := len(r.plan.Events) > 0 && r.plan.Events[0].Kind == "settle"
+	settles := 0
+	prevSettle := false
+	for i := range r.plan.Events {
+		ev := r.plan.Events[i]
+		if ev.Kind == "settle" {
+			settles++
+			if settles >= r.settleN && !final {
+				break
+			}
+			prevSettle = true
+			continue
+		}
+		if ev.Kind != "keys" {
+			prevSettle = false
+			continue
+		}
+		for _, k := range strings.Fields(ev.Keys) {
+			act, bound := binds[k]
+			before := string(m.query)
+			switch {
+			case bound && strings.Contains(act, "toggle-search"):
+				paused = !paused
+				if paused {
+					// what stays in effect is the query searched last: the search(...) override if one is active
+					frozen = string(m.query)
+					if override != nil {
+						frozen = *override
+					}
+					known = prevSettle
+				}
+			case bound && strings.HasPrefix(act, "search("):
+				x := strings.TrimSuffix(strings.TrimPrefix(act, "search("), ")")
+				override = &x
+				if paused {
+					frozen = x
+				}
+			case bound:
+				if strings.Contains(act, "reload") {
+					// the coordinator forgets the query it keeps for a disabled search when the input is
+					// replaced; combined with loading still in progress the outcome depends on timing
+					sawReload = true
+				}
+				if paused && strings.Contains(act, "reload") {
+					// a reload while search is disabled makes the coordinator drop its frozen query; what is
+					// searched then is not specified anywhere – nothing is compared
+					known = false
+				}
+				for _, a := range strings.Split(act, "+") {
+					if strings.HasPrefix(a, "change-query") || a == "clear-query" {
+						m.apply(a)
+					}
+				}
+			case k == "bspace":
+				m.apply("backward-delete-char")
+			case k == "ctrl-u":
+				m.apply("unix-line-discard")
+			case k == "ctrl-w":
+				m.apply("unix-word-rubout")
+			case k == "space":
+				m.apply("char: ")
+			case len([]rune(k)) == 1:
+				m.apply("char:" + k)
+			}
+			if string(m.query) != before {
+				override = nil // editing the query ends the override
+			}
+		}
+		prevSettle = false
+	}
+	return frozen, paused && known && !sawReload && firstIsSettle && !r.plan.NoStdin
 }
